@@ -124,6 +124,7 @@ def run_one(ob, workdir, idx):
         importlib.invalidate_caches()
         mod = importlib.import_module(modname)
         chplugin.set_float_mode(ob.float_mode)
+        chplugin.FLAGS.clear()
         # twin first: reachability witness
         tstat, tmsgs, tpaths, _ = _analyze(mod.twin, max(5.0, ob.timeout / 3), ob.per_path_timeout)
         twin = "REFUTED" if tstat == "REFUTED" and any(s in ("POST_FAIL", "EXEC_ERR") for s, _ in tmsgs) else tstat
